@@ -7,15 +7,15 @@ for d in sorted(glob.glob(os.path.join(HERE, "seeded", "C*"))):
     m = json.load(open(os.path.join(d, "meta.json")))
     diff = open(os.path.join(d, "patch.diff")).read()
     files = sorted(set(l[6:] for l in diff.splitlines() if l.startswith("+++ b/")))
-    rows.append((m["property"], ", ".join(files), m.get("needs_to_manifest", ""), m.get("detected_by", "(not run yet)")))
+    rows.append((os.path.basename(d), m["property"], ", ".join(files), m.get("needs_to_manifest", ""), m.get("detected_by", "(not run yet)")))
 out = ["# Seeded defects", "",
        "Each directory holds a change to fereidani/kanal written by an independent sub-agent (given only the property text and a scratch",
        "worktree), `patch.diff`, the demonstration (`demo.rs`, placed at `tests/seeded_demo.rs`), the agent's `notes.md` and `meta.json`",
        "(what it needs to manifest, what I ran to confirm it, and which check reports it). Every change compiles, passes the 83 tests and",
        "the doctests, and its demonstration fails with the change and passes without it (re-run by me in a fresh worktree).", "",
-       "To try one: `git -C /repo apply /verif/seeded/<id>/patch.diff; cd /verif && ./check <id>; git -C /repo checkout -- .`", "",
-       "| property | files | needs | reported by |", "|---|---|---|---|"]
+       "To try one: `git -C /repo apply /verif/seeded/<directory>/patch.diff; cd /verif && ./check <property>; git -C /repo checkout -- .`", "",
+       "| directory | property | files | needs | reported by |", "|---|---|---|---|---|"]
 for r in rows:
-    out.append("| %s | %s | %s | %s |" % tuple(x.replace("|", "/").replace("\n", " ") for x in r))
+    out.append("| %s | %s | %s | %s | %s |" % tuple(x.replace("|", "/").replace("\n", " ") for x in r))
 open(os.path.join(HERE, "seeded", "README.md"), "w").write("\n".join(out) + "\n")
 print("rows", len(rows))
